@@ -54,12 +54,40 @@ def first_result_assignment(body, start):
     return kinds
 
 
+def worker(F):
+    """The function that holds the argument loop: construct_arguments itself, or — when that is a loop-free dispatcher
+    whose result is on every path the result of one local function (say, one instantiation per byte order) — that
+    function, followed through up to three such forwarding steps."""
+    cur = FN
+    for _ in range(3):
+        b = F.body(cur)
+        if b is None or cfg.natural_loops(b):
+            return cur
+        targets = set()
+        for blk in b["blocks"]:
+            if blk["cleanup"]:
+                continue
+            f = cfg.callee_of(blk["term"])
+            if f is None:
+                continue
+            lp = f.get("resolved") if f.get("resolved") in F.bodies else f["path"] if f["path"] in F.bodies else None
+            if lp is not None and "{closure" not in lp and not F.body(lp).get("derived"):
+                targets.add((lp, blk["term"]["dest"]["l"] == 0 and not blk["term"]["dest"]["p"]))
+        if len({t[0] for t in targets}) != 1 or not all(t[1] for t in targets):
+            return cur
+        cur = next(iter(targets))[0]
+    return cur
+
+
 def check(ctx):
     F, R = ctx.facts, ctx.report
-    b = F.body(FN)
-    if b is None:
+    if F.body(FN) is None:
         R.violation("ANCHOR", "missing|" + FN, "anchor function %s not found" % FN, kind="ANCHOR-MISSING")
         return
+    WK = worker(F)
+    b = F.body(WK)
+    if WK != FN:
+        R.instance("LOOP-A", "construct_arguments forwards to %s, which holds the argument loop" % WK)
     fl0, ln0 = b["span"]["f"], b["span"]["l"]
     loops = [lp for lp in cfg.natural_loops(b)]
     # the argument loop: the one whose body calls Iterator::next on the slice iterator over TypeInfo
@@ -148,7 +176,7 @@ def check(ctx):
     args = []
 
     def on_agg(eng_, st, fr, rv, ops):
-        if not fr.path.startswith(FN):
+        if not (fr.path.startswith(FN) or fr.path.startswith(WK)):
             return
         if rv["adt"] == "dlt::Value":
             a = F.adts["dlt::Value"]["variants"][rv["variant"]]["name"]
@@ -159,7 +187,7 @@ def check(ctx):
 
     def on_call(eng_, st, fr, f, args, site):
         p = f["path"]
-        if fr.path == FN and f.get("name") == "clone" and f.get("self_ty") is not None and eng_.T.t(f["self_ty"]).get("path") == "dlt::TypeInfo":
+        if fr.path in (FN, WK) and f.get("name") == "clone" and f.get("self_ty") is not None and eng_.T.t(f["self_ty"]).get("path") == "dlt::TypeInfo":
             from engine.contracts import ret_ty
             from rules.C09 import name_of
             return [(st, Top(ret_ty(eng_, site), "clone(%s)" % name_of(eng_, st, args[0])))]
